@@ -910,7 +910,7 @@ func (e *Engine) exec(st *State, f *Frame, in ssa.Instruction) (action, []*State
 		cv := e.get(st, f, x.Cond)
 		c, ok := scalarOf(cv)
 		if !ok {
-			why := "branch on unsupported value"
+			why := "branch on unsupported value " + describe(cv)
 			if p, ok := cv.(Poison); ok {
 				why = "branch on: " + p.why
 			}
